@@ -503,7 +503,7 @@ var operators = []string{config.NEQ, config.EQ, config.GT, config.LT, config.GTE
 var datatypes = []string{"", "string", "int", "float", "bool"}
 
 var intPool = []int64{0, 1, 2, 3, 5, 10, -3, 200, 404, 500, 1000000}
-var floatPool = []float64{0.5, 1.5, 2, 2.25, -3, 200, 10, 1e6, 0}
+var floatPool = []float64{0.5, 1.5, 2, 2.25, -3, 200, 10, 1e6, 0, -0.5, -1.5, 0.125, 0.75, 2.5, 4.875, -2.75, 9.5, 199.5}
 var strPool = []string{"", "a", "ab", "abc", "b", "nil", "<nil>", "<ni", "il>", "n", "1", "2", "3", "10", "200", "1.5", "2.0",
 	"true", "false", "t", "0", "foo", "/health", "x.y", "é", " 5", "0x10", "1e2", "[]", "map[]", "1e+06"}
 var rxPool = []string{"^a", "b$", "nil", "[0-9]+", "^<nil>$", "(", "a|b", ".*", "^$", "^\\d+$", "^[a-z]+$", "<", "^2"}
@@ -538,7 +538,7 @@ func anyScalar(r *kit.Rng, cond bool) val {
 func kindFor(r *kit.Rng, dt string) byte {
 	switch dt {
 	case "int":
-		return "isf"[r.Pick(60, 25, 15)]
+		return "isf"[r.Pick(50, 25, 25)]
 	case "float":
 		return "fis"[r.Pick(50, 30, 20)]
 	case "bool":
@@ -546,7 +546,7 @@ func kindFor(r *kit.Rng, dt string) byte {
 	case "string":
 		return "sifb"[r.Pick(60, 20, 10, 10)]
 	}
-	return "sifb"[r.Pick(35, 35, 15, 15)]
+	return "sifb"[r.Pick(30, 30, 25, 15)]
 }
 
 func genCondValue(r *kit.Rng, op, dt string) val {
@@ -654,6 +654,7 @@ func genCond(r *kit.Rng) string {
 	if field == string(config.NUM_DESCENDANTS) && r.Chance(70) && op != config.In && op != config.NotIn {
 		v = val{k: 'i', i: int64(r.Intn(5))}
 	}
+	noteThresholds(v)
 	fs := "-"
 	if len(fields) > 0 {
 		enc := make([]string, len(fields))
@@ -694,6 +695,46 @@ func genRule(r *kit.Rng, idx int) []string {
 	return ops
 }
 
+// genThresholds: the numeric rule values of the case being generated; span values are drawn close
+// to them (fractions just above / below, the value itself, +-1) so that every comparison operator
+// is exercised at its boundary with int, float and numeric-string operands on either side.
+var genThresholds []float64
+
+func noteThresholds(v val) {
+	switch v.k {
+	case 'i':
+		genThresholds = append(genThresholds, float64(v.i))
+	case 'f':
+		genThresholds = append(genThresholds, v.f)
+	case 's':
+		if f, err := strconv.ParseFloat(v.s, 64); err == nil && f > -1e9 && f < 1e9 {
+			genThresholds = append(genThresholds, f)
+		}
+	case 'l':
+		for _, it := range v.items {
+			noteThresholds(it)
+		}
+	}
+}
+
+var nearDeltas = []float64{-1, -0.5, -0.25, -0.125, 0, 0, 0.125, 0.25, 0.5, 1, 1.5, -1.5}
+
+// spanValue: a field value; about a third of them sit at or next to a rule threshold.
+func spanValue(r *kit.Rng) val {
+	if len(genThresholds) == 0 || !r.Chance(35) {
+		return anyScalar(r, false)
+	}
+	x := genThresholds[r.Intn(len(genThresholds))] + nearDeltas[r.Intn(len(nearDeltas))]
+	whole := x == float64(int64(x))
+	switch {
+	case whole && r.Chance(45):
+		return val{k: 'i', i: int64(x)}
+	case r.Chance(12):
+		return val{k: 's', s: strconv.FormatFloat(x, 'f', -1, 64)}
+	}
+	return val{k: 'f', f: x}
+}
+
 func genTrace(r *kit.Rng) []string {
 	n := []int{0, 1, 2, 3, 4, 5, 6, 8}[r.Pick(3, 22, 22, 18, 12, 10, 8, 5)]
 	root := -1
@@ -705,7 +746,7 @@ func genTrace(r *kit.Rng) []string {
 		parts := []string{"span", "root=" + b01(i == root)}
 		for _, f := range plainFields {
 			if r.Chance(45) {
-				parts = append(parts, kit.Enc(f)+"="+anyScalar(r, false).tok())
+				parts = append(parts, kit.Enc(f)+"="+spanValue(r).tok())
 			}
 		}
 		if r.Chance(5) {
@@ -721,6 +762,7 @@ func genTrace(r *kit.Rng) []string {
 
 func (comp) Gen(r *kit.Rng, maxLen int, tier string) kit.Case {
 	var ops []string
+	genThresholds = genThresholds[:0]
 	nr := 1 + r.Intn(6)
 	for i := 0; i < nr; i++ {
 		ops = append(ops, genRule(r, i)...)
